@@ -46,11 +46,12 @@ FLAG_KEYS = {
     4: "C02:unprefixed-qname-default-namespace",
     5: "C02:empty-complex-element-as-empty-string",
     6: "C02:empty-nillable-leaf-as-none",
+    9: "C02:simple-content-value-untyped",
 }
 REGRESSION_KEYS = {
     8: "C02:xsi-nil-spelled-1",
 }
-FLAGS = [1, 2, 3, 4, 5, 6, 8]
+FLAGS = [1, 2, 3, 4, 5, 6, 8, 9]
 
 
 def _tables():
@@ -123,10 +124,11 @@ def lexical_variant(rng, kind, text):
     return text
 
 
-# the built-ins a generated simple-content type may extend.  Only those that decode to str: the
-# unchanged code returns the text of ANY element of complex type untranslated (see
-# simple_content_untyped_refuted in coq/C02/Props.v and the report: C02:simple-content-value-untyped)
-SIMPLE_BASES = ["string"]
+# the built-ins a generated simple-content type may extend.  A bounded share (about a third of the
+# schemas that get such types) uses a base that is NOT decoded as str: the unchanged code returns the
+# text of any element of complex type untranslated — known finding C02:simple-content-value-untyped
+# (flag 9; simple_content_untyped_refuted in coq/C02/Props.v)
+SIMPLE_BASES = ["string", "string", "string", "string", "decimal", "int", "boolean", "date"]
 
 
 class SimpleType(F.CType):
@@ -217,9 +219,15 @@ class Plan(object):
             x.nil = True
             return x, "PNone"
         if isinstance(v, tuple):
-            return self.leaf(e.name, ns, e.tref[1], v)
-        declared = self.S.type(e.tref[1], e.tref[2])
-        return self.obj(e.name, ns, declared, v)
+            x, t = self.leaf(e.name, ns, e.tref[1], v)
+        else:
+            x, t = self.obj(e.name, ns, self.S.type(e.tref[1], e.tref[2]), v)
+        if self.rng.random() < 0.06:
+            # an attribute of the SOAP envelope namespace of the message (1.1 or 1.2, the writer's
+            # choice) on a payload element: not data of the element
+            x.attrs.append(("ENV", "encodingStyle", self.rng.choice([F.SOAPENC, "http://www.w3.org/2003/05/soap-encoding", ""])))
+            self.features.add("envelope-namespace-attribute-on-payload")
+        return x, t
 
     def obj(self, name, ns, declared, v):
         S, rng = self.S, self.rng
@@ -245,6 +253,10 @@ class Plan(object):
         if isinstance(real, SimpleType):
             # simple content: the plain typed value, or a property object with `value` + `_attr`
             py, text = F.gen_leaf(rng, real.builtin)
+            if real.builtin == "decimal":
+                text = dec_canon(py)
+            if real.builtin != "string":
+                self.features.add("simple-content-non-string-base")
             if real.builtin == "string" and rng.random() < 0.3:
                 text = rng.choice([t for t in SPICY if t.strip() == t])
             x = XE(ns, name, attrs, text=text)
@@ -550,6 +562,8 @@ class Writer(object):
             qname = (p + ":" if p else "") + x.name
         ats = []
         for (ans, an, av) in x.attrs:
+            if ans == "ENV":
+                ans = self.envns
             if isinstance(av, tuple):
                 _, turi, tlocal = av
                 if (self.unprefixed_qname and turi != F.XSD and x.ns is not None and ":" in qname
@@ -625,7 +639,7 @@ class Writer(object):
             body_kids = [body_kids]
         wrapper = body_kids
         rng = self.rng
-        envns = rng.choice([ENV11, ENV11, ENV12])
+        envns = self.envns = rng.choice([ENV11, ENV11, ENV12])
         self.features.add("soap-1.2" if envns == ENV12 else "soap-1.1")
         pre = {}
         # namespaces declared up front on the Envelope
@@ -958,13 +972,15 @@ def directed_interface():
     S = F.Schema([("urn:fam:ns0", True), ("urn:fam:ns1", True)])
     el = F.Elem("l", 0, True, ("b", "int"), opt=True, multi=True, nillable=True)
     ec = F.Elem("c", 0, True, ("n", 0, "T"), opt=True, nillable=True)
-    T_ = F.CType("T", 0, None, [F.Cont("sequence", False, [el, ec])], [F.Attr("k", "string")])
+    ep = F.Elem("p", 0, True, ("n", 0, "P"), opt=True)
+    T_ = F.CType("T", 0, None, [F.Cont("sequence", False, [el, ec, ep])], [F.Attr("k", "string")])
+    P_ = SimpleType("P", 0, "decimal", None, [F.Attr("cur", "string")])
     ex = F.Elem("x", 1, True, ("b", "string"), opt=True)
     D_ = F.CType("D", 1, (0, "T"), [F.Cont("sequence", False, [ex])], [])
     er = F.Elem("r", 0, True, ("n", 0, "T"), opt=True, nillable=True)
     em = F.Elem("m", 0, True, ("n", 0, "T"), opt=True, multi=True, nillable=True)
     W_ = F.CType("W", 0, None, [F.Cont("sequence", False, [er, em])], [])
-    S.types = [T_, D_, W_]
+    S.types = [T_, D_, W_, P_]
     return S
 
 
@@ -990,6 +1006,13 @@ def directed_documents(I):
          obj("None", [("r", obj(tD, [("x", leaf(0, "a"))]))])),
         ("nil-spelled-1", w('<m xsi:nil="1"/><m><l>2</l></m>'),
          obj("None", [("m", lst(["PNone", obj(tT, [("l", lst([leaf(1, "2")]))])]))])),
+        ("simple-content-decimal", w('<r><p cur="EUR">12.5</p></r><m><p>0.5</p></m>'),
+         obj("None", [("r", obj(tT, [("p", "(PProp %s %s)" % (cstr("p"), clist(
+             ["(%s, %s)" % (cstr("value"), leaf(3, "12.5")), "(%s, %s)" % (cstr("_cur"), leaf(0, "EUR"))],
+             "str * pyval")))])), ("m", lst([obj(tT, [("p", leaf(3, "0.5"))])]))])),
+        ("envelope-attribute-on-payload",
+         w('<r E:encodingStyle="http://schemas.xmlsoap.org/soap/encoding/" k="v"><l E:encodingStyle="">5</l></r>'),
+         obj("None", [("r", obj(tT, [("_k", leaf(0, "v")), ("l", lst([leaf(1, "5")]))]))])),
         ("empty-complex", w('<r/>'),
          obj("None", [("r", obj(tT, []))])),
         ("empty-leaf", w('<m xsi:type="t:D"><x xmlns="urn:fam:ns1"></x></m>'),
@@ -1304,7 +1327,7 @@ def judge(ck, cases, meta, res, proof_ok):
         if i not in model_bad:
             # the implementation does what the model (with the quirks of the unchanged code) does:
             # the departure from the reference is one of the modelled classes
-            known = [f for f in (3, 4, 1, 2, 5, 6) if f in fl]
+            known = [f for f in (3, 4, 1, 2, 9, 5, 6) if f in fl]
             key = FLAG_KEYS[known[0]] if known else "C02:reply-value"
         elif 8 in fl:
             key = REGRESSION_KEYS[8]
